@@ -501,7 +501,11 @@ private theorem step_inv_resolver (st : CacheState) (op : Op) (hop : isResolverO
         · exact h
         · cases fieldMap t fn with
           | none => exact h
-          | some f => intro hv; simp at hv
+          | some f =>
+            simp only []
+            split
+            · exact h
+            · intro hv; simp at hv
   | replaceTypes es ds hl => simp [isResolverOp] at hop
 
 /-- **Cache soundness (the statement: the verdict is recomputed after resolvers are reassigned).**
